@@ -14,6 +14,10 @@ package main
 // value leaves behind (in the process, in the engine) is there when the next one is converted. The
 // values of a history are typically look-alikes: distinct types of one name (c11_twins.go), or
 // reflect.StructOf types over the same field names in another order / with other types.
+// Struct types may declare members whose names collide after the lower-camel mapping (Title / title): a
+// reflect.StructOf descriptor may name unexported fields (lower-case first letter) at any position, and the
+// hand-written family of harness/c11_clash (look-alike scope "K", c11_clash.go) has exported/unexported field
+// pairs, unexported fields next to getters, embedded types next to outer fields of the same lower-camel name.
 // Every case is run in a process of its own (the runner re-executes the binary per case), so what a
 // case observes is a function of the case alone and a replay reproduces it.
 
@@ -226,6 +230,11 @@ func c11Type(raw json.RawMessage) (reflect.Type, error) {
 				return nil, err
 			}
 			fields[i] = reflect.StructField{Name: name, Type: t}
+			if name != "" && !(name[0] >= 'A' && name[0] <= 'Z') {
+				// an unexported field (reflect.StructOf takes one when it names its package): it cannot be
+				// read through reflect's Interface(), its value is set through its address (c11SetField)
+				fields[i].PkgPath = "main"
+			}
 		}
 		return reflect.StructOf(fields), nil
 	}
@@ -270,6 +279,19 @@ func c11TwinType(nameRaw json.RawMessage, m map[string]json.RawMessage) (reflect
 			if t.Field(i).Name != fn || t.Field(i).Type != ft {
 				return nil, fmt.Errorf("look-alike %s/%s field %d: described as %s %s, is %s %s", scope, name, i, fn, ft, t.Field(i).Name, t.Field(i).Type)
 			}
+		}
+	}
+	if _, ok := m["vm"]; ok { // embedded fields and method sets, when the description has them
+		var emb, vm, pm []string
+		for key, dst := range map[string]*[]string{"emb": &emb, "vm": &vm, "pm": &pm} {
+			if raw, ok := m[key]; ok {
+				if err := json.Unmarshal(raw, dst); err != nil {
+					return nil, err
+				}
+			}
+		}
+		if err := c11CheckShape(t, emb, vm, pm); err != nil {
+			return nil, fmt.Errorf("look-alike %s/%s: %w", scope, name, err)
 		}
 	}
 	if e, ok := m["under"]; ok {
